@@ -36,7 +36,4 @@ RunF(s, cs, m0, row, tf, win) ==
            w == WinAll(win, cs, 1, m0, tf)
        IN IF ~Running(c) THEN [s |-> c, pr |-> <<>>, win |-> w]
           ELSE [s |-> Sample([c EXCEPT !.hooks = <<>>], m0), pr |-> <<Proj(c, minute, cs[Len(cs)], Agg(w))>>, win |-> w]
-\* a run of n flat minutes at lattice price x with an idle user and nothing resting (used to reach the daily sample)
-RECURSIVE PadDaily(_, _, _, _)
-PadDaily(s, i, last, step) == IF i > last THEN s ELSE PadDaily(Sample(s, i), i + step, last, step)
 =============================================================================
